@@ -189,6 +189,19 @@ def check(ctx):
     want = {"BeforeStarted": ["before_end", "after_start", "after_end"], "BeforeCompleted": ["after_start", "after_end"], "AfterStarted": ["after_end"], "AfterCompleted": []}
     ctx.require(rows == want, "R-TABLE", "shape:ctor::finish", "finish completes the remaining recorders from any of the four states", "SubTraceLoreCtor::finish table is %s" % rows)
 
+    # when a fold generation is left (normally or through a catchable error) EVERY queued iteration is completed: the queue's
+    # finish walks all constructors unconditionally — an iteration left unfinished is serialised with an empty (0, 0) range
+    qf = F.fn("lore_ctor_queue::SubTraceLoreCtorQueue::finish")
+    qp = Prov(qf)
+    fin_calls = qf.calls_to("lore_ctor::SubTraceLoreCtor::finish")
+    okq = len(fin_calls) == 1
+    if okq:
+        c_ = fin_calls[0]
+        recv = qp.operand(c_.args[0])
+        okq = lib.loop_depth(qf, c_.bb) == 1 and any(x[0] == "call" and x[1].endswith("iter_mut") for x in walk(recv)) and lib.mentions_field(recv, "queue") and \
+            not [g for g in lib.guards_of(qf, c_.bb, qp) if g[1] is not None] and not lib.bool_branches(qf, qp)
+    ctx.require(okq, "R-MUST", "shape:ctor-queue::finish", "finish() completes every queued lore constructor (one unconditional loop over the queue)",
+                "SubTraceLoreCtorQueue::finish no longer completes every queued constructor unconditionally: iterations in front of the current one are serialised with empty ranges, so a fold's ranges no longer tile the states after it")
     # 3. stubs
     reach, _ = F.reachable_fns([F.fn("runner::execute_air")])
     stub_sites = []
